@@ -4,6 +4,8 @@ import (
 	_ "embed"
 	"encoding/json"
 	"fmt"
+	"go/types"
+	"regexp"
 	"sort"
 	"strings"
 
@@ -38,25 +40,115 @@ func (P *Prog) leafTerms() map[string][]string {
 			continue
 		}
 		n := short(f.String())
-		if presentationName(n) || len(f.Blocks[0].Instrs) > 40 {
+		if presentationName(n) {
 			continue
+		}
+		if len(f.Blocks[0].Instrs) > 40 {
+			// long straight-line code is not a leaf helper — except a function that just returns a table literal
+			isTable := false
+			for _, in := range f.Blocks[0].Instrs {
+				if ret, ok := in.(*ssa.Return); ok {
+					for _, rv := range ret.Results {
+						if a := literalBase(rv); a != nil && sliceBase(a) == nil {
+							isTable = true
+						}
+					}
+				}
+			}
+			if !isTable || len(f.Blocks[0].Instrs) > 400 {
+				continue
+			}
 		}
 		var ts []string
 		calls := false
+		// byte strings assembled from parts (key builders): compared as the ordered list of their parts, so that
+		// append(prefix, b...) and make+copy+copy are the same definition
+		consumed := map[ssa.Value]bool{}
+		retSig := map[int]string{}
+		for _, in := range f.Blocks[0].Instrs {
+			if ret, ok := in.(*ssa.Return); ok {
+				for i, rv := range ret.Results {
+					if !isByteSlice(rv.Type()) {
+						continue
+					}
+					if sig, ok := P.byteSig(f, rv, ret, consumed, 0); ok {
+						retSig[i] = "concat(" + strings.Join(sig, " | ") + ")"
+					}
+				}
+			}
+		}
+		// a returned slice literal of structs (a table such as ParamSetPairs) is the set of its rows
+		rows := map[*ssa.Alloc]map[string][]string{}
+		for _, in := range f.Blocks[0].Instrs {
+			if ret, ok := in.(*ssa.Return); ok {
+				for _, rv := range ret.Results {
+					if a := literalBase(rv); a != nil && sliceBase(a) == nil {
+						rows[a] = map[string][]string{}
+					}
+				}
+			}
+		}
+		for _, in := range f.Blocks[0].Instrs {
+			st, ok := in.(*ssa.Store)
+			if !ok {
+				continue
+			}
+			if ia, ok := st.Addr.(*ssa.IndexAddr); ok {
+				if a, ok := ia.X.(*ssa.Alloc); ok && rows[a] != nil {
+					idx := P.TermAt(ia.Index, st).String()
+					rows[a][idx] = append(rows[a][idx], canonAtom(P.TermAt(st.Val, st).String()))
+				}
+				continue
+			}
+			fa, ok := st.Addr.(*ssa.FieldAddr)
+			if !ok {
+				continue
+			}
+			ia, ok := fa.X.(*ssa.IndexAddr)
+			if !ok {
+				continue
+			}
+			a, ok := ia.X.(*ssa.Alloc)
+			if !ok || rows[a] == nil {
+				continue
+			}
+			idx := P.TermAt(ia.Index, st).String()
+			rows[a][idx] = append(rows[a][idx], fieldNameAt(deref(ia.Type()), []int{fa.Field})+"="+canonAtom(P.TermAt(st.Val, st).String()))
+		}
+		for _, m := range rows {
+			for _, fs := range m {
+				sort.Strings(fs)
+				ts = append(ts, "row{"+strings.Join(fs, ", ")+"}")
+			}
+		}
 		for _, in := range f.Blocks[0].Instrs {
 			switch x := in.(type) {
 			case *ssa.Return:
 				for i, rv := range x.Results {
+					if sg, ok := retSig[i]; ok {
+						ts = append(ts, fmt.Sprintf("ret#%d=%s", i, sg))
+						continue
+					}
 					ts = append(ts, fmt.Sprintf("ret#%d=%s", i, canonAtom(P.TermAt(rv, x).String())))
 				}
 			case *ssa.Store:
 				a := P.TermAt(x.Addr, x).String()
-				if strings.HasPrefix(a, "addr:") || strings.HasPrefix(a, "&addr:") {
+				if strings.HasPrefix(a, "addr:") || strings.HasPrefix(a, "&addr:") || strings.HasPrefix(a, "&&addr:") {
 					continue // local bookkeeping (receiver copies, composite literals, varargs)
+				}
+				if ia, ok := x.Addr.(*ssa.IndexAddr); ok {
+					if m := sliceBase(ia.X); m != nil && consumed[m] {
+						continue
+					}
 				}
 				ts = append(ts, "store "+canonAtom(a)+":="+canonAtom(P.TermAt(x.Val, x).String()))
 			case *ssa.Call:
 				calls = true
+				if dst := byteWriteDst(x); dst != nil {
+					if m := sliceBase(dst); m != nil && consumed[m] {
+						continue
+					}
+				}
 				if x.Referrers() != nil && len(*x.Referrers()) == 0 {
 					ts = append(ts, "call "+canonAtom(P.callTerm(x).String()))
 				}
@@ -72,6 +164,145 @@ func (P *Prog) leafTerms() map[string][]string {
 		out[n] = ts
 	}
 	return out
+}
+
+// literalBase: the array allocated for a slice literal that v is (a full window of), or nil.
+func literalBase(v ssa.Value) *ssa.Alloc {
+	for i := 0; i < 4; i++ {
+		switch x := v.(type) {
+		case *ssa.Slice:
+			v = x.X
+		case *ssa.ChangeType:
+			v = x.X
+		case *ssa.Alloc:
+			if _, ok := deref(x.Type()).Underlying().(*types.Array); ok {
+				return x
+			}
+			return nil
+		default:
+			return nil
+		}
+	}
+	return nil
+}
+
+func isByteSlice(t types.Type) bool {
+	sl, ok := t.Underlying().(*types.Slice)
+	if !ok {
+		return false
+	}
+	b, ok := sl.Elem().Underlying().(*types.Basic)
+	return ok && b.Kind() == types.Uint8
+}
+
+// sliceBase: the make([]byte, …) buffer a slice value is (a window of), or nil.
+func sliceBase(v ssa.Value) ssa.Value {
+	for i := 0; i < 6; i++ {
+		switch x := v.(type) {
+		case *ssa.MakeSlice:
+			return x
+		case *ssa.Alloc: // make([]byte, <constant>) is compiled to new([n]byte)[:]
+			if a, ok := deref(x.Type()).Underlying().(*types.Array); ok {
+				if b, ok := a.Elem().Underlying().(*types.Basic); ok && b.Kind() == types.Uint8 {
+					return x
+				}
+			}
+			return nil
+		case *ssa.Slice:
+			v = x.X
+		case *ssa.ChangeType:
+			v = x.X
+		default:
+			return nil
+		}
+	}
+	return nil
+}
+
+// byteWriteDst: the destination of copy(dst, src) / binary.*.PutUintNN(dst, v), or nil.
+func byteWriteDst(c *ssa.Call) ssa.Value {
+	if b, ok := c.Call.Value.(*ssa.Builtin); ok && b.Name() == "copy" && len(c.Call.Args) == 2 {
+		return c.Call.Args[0]
+	}
+	_, name := calleeName(&c.Call)
+	if strings.Contains(name, "encoding/binary.") && strings.Contains(name, ").PutUint") && len(c.Call.Args) == 3 {
+		return c.Call.Args[1]
+	}
+	return nil
+}
+
+// byteSig: the ordered parts of a byte string assembled in a single-block function: append(a, b...) is parts(a) then
+// parts(b); a make([]byte, n) buffer is the sequence of what is written into it (copy sources, PutUintNN values,
+// indexed stores) in program order. ok is false when the value is not such an assembly (plain terms are compared).
+func (P *Prog) byteSig(f *ssa.Function, v ssa.Value, at ssa.Instruction, consumed map[ssa.Value]bool, depth int) ([]string, bool) {
+	if depth > 6 {
+		return nil, false
+	}
+	opaque := func() []string { return []string{canonAtom(P.TermAt(v, at).String())} }
+	switch x := v.(type) {
+	case *ssa.ChangeType:
+		return P.byteSig(f, x.X, at, consumed, depth+1)
+	case *ssa.Slice:
+		if x.Low == nil && x.High == nil && x.Max == nil {
+			return P.byteSig(f, x.X, at, consumed, depth+1)
+		}
+		if _, isBuf := x.X.(*ssa.Alloc); isBuf && x.Low == nil && sliceBase(x.X) != nil {
+			return P.byteSig(f, x.X, at, consumed, depth+1) // new([n]byte)[:n]
+		}
+	case *ssa.Alloc:
+		if sliceBase(x) != nil {
+			return P.bufferParts(f, x, consumed, depth)
+		}
+	case *ssa.Call:
+		if b, ok := x.Call.Value.(*ssa.Builtin); ok && b.Name() == "append" && len(x.Call.Args) == 2 && isByteSlice(x.Call.Args[1].Type()) {
+			l, ok1 := P.byteSig(f, x.Call.Args[0], x, consumed, depth+1)
+			if !ok1 {
+				l = []string{canonAtom(P.TermAt(x.Call.Args[0], x).String())}
+			}
+			r, ok2 := P.byteSig(f, x.Call.Args[1], x, consumed, depth+1)
+			if !ok2 {
+				r = []string{canonAtom(P.TermAt(x.Call.Args[1], x).String())}
+			}
+			return append(l, r...), true
+		}
+	case *ssa.MakeSlice:
+		return P.bufferParts(f, x, consumed, depth)
+	}
+	_ = opaque
+	return nil, false
+}
+
+// bufferParts: what is written into buffer x, in program order.
+func (P *Prog) bufferParts(f *ssa.Function, x ssa.Value, consumed map[ssa.Value]bool, depth int) ([]string, bool) {
+	var parts []string
+	for _, in := range f.Blocks[0].Instrs {
+		switch w := in.(type) {
+		case *ssa.Call:
+			dst := byteWriteDst(w)
+			if dst == nil || sliceBase(dst) != x {
+				continue
+			}
+			if len(w.Call.Args) == 2 { // copy
+				p, ok := P.byteSig(f, w.Call.Args[1], w, consumed, depth+1)
+				if !ok {
+					p = []string{canonAtom(P.TermAt(w.Call.Args[1], w).String())}
+				}
+				parts = append(parts, p...)
+			} else {
+				_, name := calleeName(&w.Call)
+				parts = append(parts, name[strings.LastIndex(name, "encoding/binary."):]+"("+canonAtom(P.TermAt(w.Call.Args[2], w).String())+")")
+			}
+		case *ssa.Store:
+			if ia, ok := w.Addr.(*ssa.IndexAddr); ok && sliceBase(ia.X) == x {
+				parts = append(parts, "byte@"+canonAtom(P.TermAt(ia.Index, w).String())+"="+canonAtom(P.TermAt(w.Val, w).String()))
+			}
+		}
+	}
+	if len(parts) == 0 {
+		return nil, false
+	}
+	consumed[x] = true
+	return parts, true
 }
 
 func dumpLeafTerms(P *Prog) {
@@ -103,7 +334,45 @@ func leafTermsFrozen(r *Run, rule string) {
 	for _, n := range names {
 		have, ok := cur[n]
 		if !ok {
-			continue // gained control flow or vanished: other rules
+			// gained control flow: the value it used to return must still be one of the values it returns (a guard in
+			// front of it is the business of the guard rules); a boolean helper rewritten as `if c { return true };
+			// return false` is judged by those rules as well
+			f := P.Fn(n)
+			if f == nil || len(f.Blocks) < 2 {
+				continue
+			}
+			for _, w := range pinned[n] {
+				m := regexp.MustCompile(`^ret#(\d+)=(.*)$`).FindStringSubmatch(w)
+				if m == nil || strings.HasPrefix(m[2], "concat(") {
+					continue
+				}
+				idx := int(m[1][0] - '0')
+				found, allConst, nret := false, true, 0
+				for _, ret := range Returns(f) {
+					if idx >= len(ret.Results) {
+						continue
+					}
+					nret++
+					t := canonAtom(P.TermAt(ret.Results[idx], ret).String())
+					if t == m[2] {
+						found = true
+					}
+					if t != "true" && t != "false" {
+						allConst = false
+					}
+				}
+				for _, a := range P.RetAlternatives(f, idx) {
+					if canonAtom(a.T.String()) == m[2] {
+						found = true
+					}
+				}
+				compared++
+				if nret > 0 && !found && !allConst {
+					changed++
+					r.Viol(rule, "leaf-branched:"+n, P.Pos(f.Pos()), n+" was a branch-free helper returning "+oneLine(m[2])+" ; it now has branches and none of its returns yields that value any more: every caller silently gets the new meaning")
+				}
+			}
+			continue
 		}
 		compared++
 		want := pinned[n]
